@@ -724,3 +724,16 @@ def c04_i(ctx):
         ctx.check(ok, ap, 'fresh task id', 'id from itertools.count(), task stored under it',
                   'task ids are not taken from a monotone counter and stored under that id',
                   fn=ap, node=rr[0] if rr else ap.node)
+
+
+# With a threshold objective the number of batches is first set to max_parallel_batches and then
+# re-estimated from the accept rate after every batch; if that re-estimation can be skipped the
+# simulation count depends on max_parallel_batches.  Same obligation as C01-f.
+@obligation('C04-j', 'T5 T6', 'a threshold objective is re-estimated after every batch whatever '
+            'the threshold value, so the initial max_parallel_batches estimate never decides the '
+            'result (shared with C01-f)', floor=6,
+            necessary='a run that stops on the initial estimate returns n_sim proportional to '
+                      'max_parallel_batches')
+def c04_j(ctx):
+    from . import C01 as _C01     # imported late: C01 imports helpers from this module
+    return _C01.c01_f(ctx)
